@@ -369,7 +369,7 @@ fn run_c36(ctx: &mut Ctx, rep: &mut Report) {
         // a few more clients whose connection setup fails (fault hook keyed by their source addresses): they are closed
         // at once and must not leave an open-connection count behind
         hooks.clear_detail_faults();
-        hooks.add_detail_fault("rtr.setup", "127.0.0.25", 1);
+        for a in ["127.0.0.250:", "127.0.0.251:", "127.0.0.252:"] { hooks.add_detail_fault("rtr.setup", a, 1); }
         let nfail = rng.usize(5);
         let mut plan = plan;
         for i in 0..nfail { plan.push((Ipv4Addr::new(127, 0, 0, 250 + (i % 3) as u8).into(), listeners[i % listeners.len()])); }
